@@ -13,7 +13,7 @@ def scenario(c, rnd):
                  'abs': dict(invalidates=False, lockey='')}
     slow = p.get('reader') == 'slow'
     # the response another client is still receiving must be larger than what the socket buffers absorb
-    cacheable_a = dict(cacheable, blen=(400000 if p.get('store', 'mem') == 'mem' else 3000000)) if slow else cacheable
+    cacheable_a = dict(cacheable, blen=(400000 if p.get('store', 'mem') == 'mem' else 1000000)) if slow else cacheable
     oh = []
     if LOC[p['loc']]:
         oh.append((p['hdr'], LOC[p['loc']]))
@@ -42,7 +42,7 @@ def run(ctx):
     classes.sort(key=lambda c: json.dumps(c, sort_keys=True))
     rnd.shuffle(classes)
     out = []
-    quota = {('mem', 'none'): 150, ('mem', 'slow'): 40, ('rock', 'none'): 30, ('rock', 'slow'): 40, ('ufs', 'none'): 20, ('ufs', 'slow'): 30}
+    quota = {('mem', 'none'): 150, ('mem', 'slow'): 30, ('rock', 'none'): 30, ('rock', 'slow'): 30, ('ufs', 'none'): 20, ('ufs', 'slow'): 20}
     for (store, reader), q in sorted(quota.items()):
         grp = [c for c in classes if c['par']['store'] == store and c['par']['reader'] == reader]
         if not ctx.thorough:
